@@ -7,7 +7,9 @@ import (
 	"fmt"
 	"strings"
 
+	"github.com/bufbuild/protocompile/ast"
 	proto_parser "github.com/bufbuild/protocompile/parser"
+	"github.com/pentops/j5/internal/bcl/errpos"
 	"github.com/pentops/j5/internal/j5s/j5convert"
 	"google.golang.org/protobuf/reflect/protodesc"
 	"google.golang.org/protobuf/reflect/protoreflect"
@@ -40,7 +42,38 @@ func protoToDescriptor(_ context.Context, filename string, data []byte, errs *Er
 	if err != nil {
 		return nil, nil, err
 	}
+	summary.DependencyPositions = importPositions(fileNode)
 	return result, summary, nil
+}
+
+// importPositions gives the position of the first import statement for each
+// package the file imports.
+func importPositions(fileNode *ast.FileNode) map[string]*errpos.Position {
+	out := map[string]*errpos.Position{}
+	for _, decl := range fileNode.Decls {
+		imp, ok := decl.(*ast.ImportNode)
+		if !ok || imp.Name == nil {
+			continue
+		}
+		pkg := j5convert.PackageFromFilename(imp.Name.AsString())
+		if _, ok := out[pkg]; ok {
+			continue
+		}
+		info := fileNode.NodeInfo(imp)
+		start := info.Start()
+		end := info.End()
+		out[pkg] = &errpos.Position{
+			Start: errpos.Point{
+				Line:   start.Line - 1,
+				Column: start.Col - 1,
+			},
+			End: errpos.Point{
+				Line:   end.Line - 1,
+				Column: end.Col - 1,
+			},
+		}
+	}
+	return out
 }
 
 func buildSummaryFromReflect(res protoreflect.FileDescriptor, errs *ErrCollector) (*j5convert.FileSummary, error) {
